@@ -39,8 +39,10 @@ func genFault(t *rapid.T, kinds []string) *Fault {
 	return f
 }
 
-func TestC09(t *testing.T) {
-	rapid.Check(t, func(t *rapid.T) {
+func TestC09(t *testing.T) { rapid.Check(t, propC09) }
+
+func propC09(t *rapid.T) {
+	{
 		o := genOpts{maxBlob: 16, backendKinds: []string{"ok", "ok", "ok", "error"}, noText: true, segmentation: rapid.IntRange(0, 4).Draw(t, "use_segmentation") == 0}
 		sc := genScenario(t, o)
 		// bit flips in length bytes announce gigabytes; a 1 MiB limit keeps the (legitimate,
@@ -52,7 +54,7 @@ func TestC09(t *testing.T) {
 			sc.Backend.Fault = genFault(t, responseFaults)
 		}
 		judge(t, "C09", sc, checkC09(sc))
-	})
+	}
 }
 
 // refDecodeFrames applies the reference reading of an enveloped stream.
@@ -334,7 +336,7 @@ func checkC09(sc *Scenario) *CheckResult {
 		path = "passthrough"
 	}
 	sig := "c09:" + dir + ":" + f.Kind
-	if fs := featureSig(sc, view, dir); strings.Contains(fs, ":to_unenveloped") && (strings.Contains(fs, ":rawframe") || (f.Kind == FaultFlag && f.Val == 0) || f.Kind == FaultBitFlip) {
+	if fs := featureSig(sc, view, dir); strings.Contains(fs, ":to_unenveloped") && (strings.Contains(fs, ":rawframe") || (f.Kind == FaultFlag && f.Val == 0) || f.Kind == FaultBitFlip || f.Kind == FaultReplace || f.Kind == FaultSplice) {
 		// an uncompressed frame inside a compression-declaring stream towards an un-enveloped
 		// peer: the region of known finding D10 (the stream-level Content-Encoding is wrong there)
 		sig = "c09:" + dir + ":rawframe:to_unenveloped:" + f.Kind
@@ -359,7 +361,7 @@ func checkC09(sc *Scenario) *CheckResult {
 			// wrong behind it (missing promised bytes, trailing garbage, further frames) is never
 			// looked at: unspecified (DESIGN appendix B).
 			all := refAllMessages(sc, out.Sent)
-			if len(all) > 0 && all[0] != nil && len(view.Msgs) == 1 && view.Msgs[0] != nil && canon(view.Msgs[0]) == canon(all[0]) && view.ReadErr == "" {
+			if len(all) > 0 && all[0] != nil && len(view.Msgs) == 1 && view.Msgs[0] != nil && canonKnown(view.Msgs[0]) == canonKnown(all[0]) && view.ReadErr == "" {
 				res.class("fault_behind_first_message_unenveloped_backend")
 				return res
 			}
@@ -392,7 +394,7 @@ func checkC09(sc *Scenario) *CheckResult {
 					if m == nil {
 						continue
 					}
-					if i >= len(all) || all[i] == nil || canon(all[i]) != canon(m) {
+					if i >= len(all) || all[i] == nil || canonKnown(all[i]) != canonKnown(m) {
 						res.violate("partial_message_delivered", sig+":backend", "request fault %+v (%s): backend was handed message %d = %s which the client never completely sent (valid prefix has %d messages)", *f, why, i, msgJSON(m), len(sent))
 						break
 					}
@@ -424,7 +426,7 @@ func checkC09(sc *Scenario) *CheckResult {
 		res.violate("fault_became_success", sig, "response fault %+v (%s) but the client observed OK with %d messages", *f, why, len(cv.Msgs))
 	}
 	streamingCut := formEnveloped(c.Form) && (cv.Incomplete != "" || len(framingProblems(cv)) > 0) &&
-		(f.Kind == FaultCut || f.Kind == FaultLenPlus || f.Kind == FaultCLPlus || f.Kind == FaultCLMinus || f.Kind == FaultLenMinus || f.Kind == FaultNoStatus || f.Kind == FaultBitFlip)
+		(f.Kind == FaultCut || f.Kind == FaultLenPlus || f.Kind == FaultCLPlus || f.Kind == FaultCLMinus || f.Kind == FaultLenMinus || f.Kind == FaultNoStatus || f.Kind == FaultBitFlip || f.Kind == FaultReplace || f.Kind == FaultSplice)
 	if streamingCut {
 		// a frame header was already forwarded: require a non-OK strict parse and a well-formed end appended
 		switch c.Form {
@@ -469,7 +471,7 @@ func checkC09(sc *Scenario) *CheckResult {
 			if m == nil {
 				continue
 			}
-			if i >= len(all) || all[i] == nil || canon(all[i]) != canon(m) {
+			if i >= len(all) || all[i] == nil || canonKnown(all[i]) != canonKnown(m) {
 				res.violate("partial_message_delivered", sig+":client", "response fault %+v (%s): client decoded message %d = %s which the handler never completely produced", *f, why, i, msgJSON(m))
 				break
 			}
